@@ -632,6 +632,14 @@ var scripts = [][]string{
 		"stake b 0 0 1000000000000", "stake b 1 1 1000000000000",
 		"newa 3 1 1 3145728 100000000 0,1", "commit 0 0 1381193", "commit 0 1 26177", "commit 0 1 -13088",
 		"updb 1 - 100000000", "upd 0 c3 10000000000 5368709120 1 - -", "tick 86400 3 1", "genc", "cancel 0 c3"},
+	// cv-wrap-back (from the thorough run of seed 12): after such an underflow the blobber raises its price again and
+	// the next extend INCREMENTS the wrapped value (allocation.go 803, unchecked `+=`): it passes 2^64 and comes back small
+	{"init fx-cv-wrap-back 1",
+		"addb 0 107374182400 1000000000 100000000 0 100", "addb 1 107374182400 1000000000 100000000 1 100",
+		"stake b 0 0 1000000000000", "stake b 1 1 1000000000000",
+		"newa 3 1 1 3145728 100000000 0,1", "commit 0 0 1381193", "commit 0 1 26177", "commit 0 1 -13088",
+		"updb 1 - 100000000", "upd 0 c3 10000000000 5368709120 1 - -", "updb 1 - 10000000000",
+		"upd 0 c3 100000000000 1048576 1 - -", "upd 0 c3 0 0 1 - -", "cancel 0 c3"},
 	// num_validators_rewarded = 0 (init mode 2): a passed challenge leaves the validators' share in the pool
 	{"init fx-no-validators-rewarded 2",
 		"addb 0 107374182400 1000000000 100000000 0 100", "addb 1 107374182400 1000000000 100000000 1 100",
